@@ -20,7 +20,8 @@ CONSTANTS MaxGen,      \* session keys the client may derive
           RawSet,      \* subset of RawKinds
           RepInner,    \* methods carried by tampered / oddly wrapped envelopes
           FullProduct, \* TRUE: every tamper x outer combination; FALSE: one dimension at a time
-          Open0Set     \* initial wallet state(s): subset of BOOLEAN
+          Open0Set,    \* initial wallet state(s): subset of BOOLEAN
+          ForeignSet   \* running_foreign: subset of BOOLEAN
 
 VARIABLES st, hist, o0
 vars == <<st, hist, o0>>
@@ -57,7 +58,7 @@ TopReqs(s) == PlainReqs \cup EncReqs(s) \cup {Batch(b) : b \in Batches} \cup {Ra
 
 \* --------------------------------------------------------------- behaviour
 Init == /\ o0 \in Open0Set
-        /\ st = InitState(o0)
+        /\ \E fg \in ForeignSet : st = InitState(o0, fg)
         /\ hist = <<>>
 Next == /\ Len(hist) < MaxLen
         /\ \E q \in TopReqs(st) :
@@ -72,11 +73,11 @@ View == <<st, o0>>
 \* --------------------------------------------------------------- checking
 TypeOK == /\ st.sess \in 0..MaxGen /\ st.ngen \in 0..MaxGen /\ st.sess <= st.ngen
           /\ st.open \in BOOLEAN /\ st.active \in {"", "a0", "a1"} /\ (st.open <=> st.active # "")
-          /\ st.nacct \in 0..MaxAcct
+          /\ st.nacct \in 0..MaxAcct /\ st.fg \in BOOLEAN
 
 Q == hist'[Len(hist')]
 H == Handle(st, Q)
-Eff == H.touch \/ H.st.open # st.open \/ H.st.active # st.active \/ H.st.nacct # st.nacct
+Eff == H.touch \/ H.mtouch \/ H.st.open # st.open \/ H.st.active # st.active \/ H.st.nacct # st.nacct
 Nk == IF H.resp.nkeys > 0 THEN H.st.ngen ELSE 0
 \* GateSound on every transition of the model; a failure prints the history (the runner replays
 \* it on the real code before anything is reported)
@@ -84,12 +85,12 @@ Failing == {i \in 1..7 : ~GateHolds(i, st.sess, Q, H.resp, Eff, H.st.sess, Nk, T
 Prop_Gate ==
   [][IF Failing = {} THEN TRUE
      ELSE PrintT(<<"CEX", ToJson([inv |-> GateMonitors[CHOOSE i \in Failing : TRUE],
-                                  hist |-> [open0 |-> o0, reqs |-> hist']])>>) /\ FALSE]_vars
+                                  hist |-> [open0 |-> o0, foreign |-> st.fg, reqs |-> hist']])>>) /\ FALSE]_vars
 
 \* --------------------------------------------------------------- generation
 \* loop = the request leaves the model state unchanged: the runner chains such requests after a
 \* common prefix into one history (each is still executed in exactly the state the edge starts from)
-EmitEdges == [][PrintT(<<"REPLAY", ToJson([open0 |-> o0, reqs |-> hist', loop |-> (st' = st)])>>)]_vars
+EmitEdges == [][PrintT(<<"REPLAY", ToJson([open0 |-> o0, foreign |-> st.fg, reqs |-> hist', loop |-> (st' = st)])>>)]_vars
 
 \* vacuity witnesses: each must be REACHABLE (checked by the runner as violated "invariants")
 W_Rotated    == ~(st.sess >= 2)                              \* a key was superseded
